@@ -11,10 +11,24 @@ import (
 	"sync"
 )
 
-const (
-	verifDir = "/verif"
-	goRoot   = "/opt/veriftools/go1.26.8"
-)
+const goRoot = "/opt/veriftools/go1.26.8"
+
+// verifDir is the root of the verification machinery: $VERIF_DIR, or the
+// directory above the one holding this executable (so a snapshot of /verif
+// elsewhere builds and runs entirely within itself).
+var verifDir = func() string {
+	if d := os.Getenv("VERIF_DIR"); d != "" {
+		return d
+	}
+	if exe, err := os.Executable(); err == nil {
+		if d := filepath.Dir(filepath.Dir(exe)); d != "" {
+			if _, err := os.Stat(filepath.Join(d, "harness")); err == nil {
+				return d
+			}
+		}
+	}
+	return "/verif"
+}()
 
 func repoDir() string {
 	if d := os.Getenv("VERIF_REPO"); d != "" {
@@ -114,7 +128,7 @@ func generate() (rewriteInfo, error) {
 			genErr = err
 			return
 		}
-		mod = append(mod, []byte("\nrequire verif v0.0.0\n\nreplace verif => /verif\n\nrequire github.com/anishathalye/porcupine v1.3.0\n")...)
+		mod = append(mod, []byte("\nrequire verif v0.0.0\n\nreplace verif => "+verifDir+"\n\nrequire github.com/anishathalye/porcupine v1.3.0\n")...)
 		if err := os.WriteFile(filepath.Join(bd, "sheens.mod"), mod, 0o644); err != nil {
 			genErr = err
 			return
